@@ -20,6 +20,7 @@ import (
 //   via    = 0: restful.NewResponse(writer) driven directly
 //            1: the calls are made by a route function inside a container (Dispatch); StatusCode()/ContentLength()
 //               are read by a container filter after the handler returned
+//            3: as 1, with an http middleware (HttpMiddlewareHandlerToFilter) between the observing filter and the route
 //            2: the calls (Write / WriteHeader only) are made by a plain http.Handler registered with HandleWithFilter,
 //               reached through ServeHTTP; the numbers are read by a container filter after the handler returned
 //   op     = (0 bytes) Write | (1 status) WriteHeader | (2 status reason api) WriteErrorString/WriteError
@@ -210,7 +211,9 @@ func genResp(r *Rng) Sx {
 		}
 	}
 	pretty, via, ops := r.Bool(), r.Intn(2), genRespOps(r)
-	if r.Pct(15) {
+	if r.Pct(10) {
+		via = 3 // route function behind an http middleware adapted with HttpMiddlewareHandlerToFilter; read by an EARLIER filter
+	} else if r.Pct(15) {
 		// a plain http.Handler registered with HandleWithFilter: it can only Write and WriteHeader
 		via = 2
 		kept := Ls{}
@@ -383,6 +386,11 @@ func runResp(raw Sx) (Sx, Sx) {
 				ch.ProcessFilter(rq, rp)
 				code, clen = rp.StatusCode(), rp.ContentLength()
 			})
+			if via == 3 {
+				c.Filter(restful.HttpMiddlewareHandlerToFilter(func(next http.Handler) http.Handler {
+					return http.HandlerFunc(func(rw http.ResponseWriter, rq *http.Request) { next.ServeHTTP(rw, rq) })
+				}))
+			}
 			ws := new(restful.WebService)
 			ws.Path("/r")
 			ws.Route(ws.GET("/x").To(func(rq *restful.Request, rp *restful.Response) {
